@@ -27,7 +27,7 @@ type isoCase struct {
 // isoTrees generates the source trees of the C07/C08 campaign below parent.
 func isoTrees(e *Env, r *rand.Rand, parent string, hostileNames bool) []isoCase {
 	var cases []isoCase
-	n := e.Pick(40, 1500)
+	n := e.Pick(80, 2000)
 	for i := 0; i < n; i++ {
 		ps3 := i%3 == 1
 		opt := tree.GenOpt{MaxDepth: r.Intn(5), MaxEntries: 1 + r.Intn(12), MaxSize: 70000, NameLen: 1 + r.Intn(30), EmptyFiles: true}
@@ -80,6 +80,45 @@ func isoTrees(e *Env, r *rand.Rand, parent string, hostileNames bool) []isoCase 
 	mk("sector-multiples", false, map[string]int64{"a": 2048, "b": 4096, "c": 2047, "d": 2049, "e": 1})
 	mk("empty-dirs", false, map[string]int64{"x/file": 10}, "e1", "e2/e3", "x/empty")
 	mk("single-file", true, map[string]int64{"only.bin": 65537})
+	// directories whose records end exactly on a sector border, in the primary or the Joliet hierarchy
+	// ("." and ".." take 34+34 bytes; a record is 33+len+pad bytes, Joliet names take 2 bytes per character)
+	for L := 1; L <= 16; L++ {
+		for _, joliet := range []bool{false, true} {
+			idl := L
+			if joliet {
+				idl = 2 * L
+			}
+			rec := 33 + idl + (idl+1)%2
+			for k := 1; k <= 2; k++ {
+				var nrec int
+				if k == 1 {
+					if (2048-68)%rec != 0 {
+						continue
+					}
+					nrec = (2048 - 68) / rec
+				} else {
+					if 2048%rec != 0 {
+						continue
+					}
+					nrec = (2048-68)/rec + 2048/rec // first sector as full as it gets, second one exactly full
+				}
+				files := map[string]int64{}
+				for i := 0; i < nrec; i++ {
+					files[fmt.Sprintf("%0*d", L, i)] = int64(1 + i%3)
+				}
+				if len(files) != nrec {
+					continue
+				}
+				mk(fmt.Sprintf("exactfill-L%d-j%v-k%d", L, joliet, k), L%2 == 0 && false, files)
+				// the same inside a sub-directory (followed by more directories)
+				sub := map[string]int64{"zz/after": 3}
+				for n := range files {
+					sub["sub/"+n] = files[n]
+				}
+				mk(fmt.Sprintf("exactfill-sub-L%d-j%v-k%d", L, joliet, k), false, sub)
+			}
+		}
+	}
 	if hostileNames {
 		// C08 space: long names, non-ASCII, colliding after mapping, many entries, > 1000 directories
 		for _, l := range []int{64, 100, 110, 111, 127, 128, 200, 255} {
@@ -108,9 +147,9 @@ func isoTrees(e *Env, r *rand.Rand, parent string, hostileNames bool) []isoCase 
 // bigFileTrees creates trees with synthetic (sparse) files around the 4 GiB extent limits.
 func bigFileTrees(e *Env, parent string) []isoCase {
 	part := int64(0xFFFFF800)
-	sizes := [][]int64{{1<<32 + 1, 5}}
+	sizes := [][]int64{{1<<32 + 1, 5, 1, 2, 3, 4, 5, 6, 7, 8, 9, 10, 11, 12, 13, 14, 15, 16}}
 	if e.Thorough {
-		sizes = [][]int64{{1<<32 - 2048}, {1<<32 - 1, 0, 7}, {1 << 32}, {1<<32 + 1, 5}, {2*part - 1, 2 * part, 3}, {2*part + 1}, {9 << 30, 100}}
+		sizes = [][]int64{{1<<32 - 2048}, {1<<32 - 1, 0, 7}, {1 << 32}, {1<<32 + 1, 5}, {2*part - 1, 2 * part, 3}, {2*part + 1}, {9 << 30, 100, 1, 2, 3, 4, 5, 6, 7, 8, 9, 10, 11, 12, 13, 14}}
 	}
 	var cases []isoCase
 	for i, set := range sizes {
@@ -132,7 +171,7 @@ func bigFileTrees(e *Env, parent string) []isoCase {
 			}
 			must(tree.Materialize(root, n))
 		}
-		cases = append(cases, isoCase{Name: name, Kind: "bigfile", Root: root, Entries: len(set), Feature: fmt.Sprint(set)})
+		cases = append(cases, isoCase{Name: name, Kind: "bigfile", Root: root, Entries: len(set), Feature: fmt.Sprint(set[:min(len(set), 3)]), Shuffle: int64(i + 1)})
 	}
 	return cases
 }
